@@ -447,6 +447,12 @@ impl PartialOrd for Natural {
 
         let (&l_msd, mut l_digits) = l_digits.split_last().unwrap();
         let (&r_msd, mut r_digits) = r_digits.split_last().unwrap();
+        if l_msd == 0 {
+            // Both numbers are zero (they have the same bit width). Shifting by
+            // `leading_zeros() == u64::BITS` below would overflow.
+            debug_assert_eq!(r_msd, 0);
+            return Some(Ordering::Equal);
+        }
         let l_shl = l_msd.leading_zeros();
         let r_shl = r_msd.leading_zeros();
         let mut l = l_msd << l_shl;
